@@ -56,10 +56,21 @@ func loadMutations(verif, prop string) ([]Mutation, error) {
 	return out, nil
 }
 
+var selftestOnly string
+
 func runSelftests(cfg *PropConfig, repo, verif, work string) ([]map[string]any, int) {
 	muts, err := loadMutations(verif, cfg.ID)
 	if err != nil {
 		return []map[string]any{{"error": err.Error()}}, 1
+	}
+	if selftestOnly != "" {
+		var keep []Mutation
+		for _, m := range muts {
+			if m.Name == selftestOnly {
+				keep = append(keep, m)
+			}
+		}
+		muts = keep
 	}
 	results := make([]map[string]any, len(muts))
 	bad := 0
@@ -122,6 +133,34 @@ func runSelftests(cfg *PropConfig, repo, verif, work string) ([]map[string]any, 
 					failed = append(failed, ob.Name+"="+ob.Result)
 				}
 			}
+			if os.Getenv("GOVC_SELFTEST_REPLAY") != "" {
+				tried := map[string]int{}
+				var rep []string
+				reproduced := map[string]bool{}
+				for _, ob := range rr.obs {
+					if ob.Cover || ob.Result == "unsat" || tried[ob.Fn] >= 3 || reproduced[ob.Fn] || (tried[ob.Fn] == 0 && len(tried) >= 4) {
+						continue
+					}
+					tried[ob.Fn]++
+					w := filepath.Join(work, sanitize(m.Name)+"-replay")
+					rp, ok := replayObligation(rr.g, repo, w, cfg.ID, ob, w)
+					if ok {
+						reproduced[ob.Fn] = true
+						if b, err := os.ReadFile(rp); err == nil {
+							var mm struct {
+								Replay *replayRecord `json:"replay"`
+							}
+							json.Unmarshal(b, &mm)
+							if mm.Replay != nil {
+								rep = append(rep, fmt.Sprintf("%s REPRODUCED with %s -> %v %s%v", ob.Name, strings.Join(mm.Replay.GoArgs, "; "), mm.Replay.Observed, mm.Replay.Verdict.Panic, mm.Replay.Verdict.Falsified))
+							}
+						}
+					} else {
+						rep = append(rep, ob.Name+" not reproduced")
+					}
+				}
+				res["replay"] = rep
+			}
 			detected := len(failed) > 0
 			if detected && len(m.Expect) > 0 {
 				detected = false
@@ -160,7 +199,9 @@ func cmdSelftest(args []string) int {
 	repo := fs.String("repo", "/repo", "")
 	verif := fs.String("verif", "/verif", "")
 	prop := fs.String("prop", "", "")
+	only := fs.String("only", "", "run only the mutation with this name")
 	fs.Parse(args)
+	selftestOnly = *only
 	cfg, err := loadProp(*verif, *prop)
 	if err != nil {
 		fmt.Fprintln(os.Stderr, err)
@@ -169,6 +210,11 @@ func cmdSelftest(args []string) int {
 	res, bad := runSelftests(cfg, *repo, *verif, filepath.Join(*verif, ".work", *prop+"-selftest"))
 	for _, r := range res {
 		fmt.Printf("%-10v %-40v %v\n", r["status"], r["mutation"], r["failed_obligations"])
+		if rep, ok := r["replay"].([]string); ok {
+			for _, x := range rep {
+				fmt.Printf("           replay: %s\n", x)
+			}
+		}
 	}
 	if bad > 0 {
 		return 1
